@@ -91,6 +91,9 @@ func propC02(c *Ctx, r *Report) {
 	r.Clauses = append(r.Clauses, "width-named capabilities (E18): in a switch over a scalar bit width the capability constants named in the arm for width N carry N in their name (Float16 / Int16 / ...16BitAccess for 16, Float64 / Int64 for 64, Int8 for 8)")
 	c.runWidthSuffix(r, "width.suffix", "spirv", "Capability")
 	r.floor("width.suffix", 6)
+	r.Clauses = append(r.Clauses, "merge before branch (E28, go/cfg must-analysis): in every function of the SPIR-V emitter, on every control-flow path to the emission of an OpBranchConditional or OpSwitch terminator an OpSelectionMerge / OpLoopMerge has been emitted before (directly, through a builder method or through a local closure)")
+	c.runMergeFirst(r, "spirv.mergefirst")
+	r.floor("spirv.mergefirst", 6)
 	r.Clauses = append(r.Clauses, "version bump (E23): every call that raises the module's SPIR-V version to 1.4 or later sits in a function that also updates the options' Version field, which selects the 1.4 OpEntryPoint interface rule")
 	c.runVersionBump(r, "version.bump14")
 	r.floor("version.bump14", 1)
